@@ -442,7 +442,8 @@ contract(f"{DS}:DesignNearSquare.__init__",
          dict(self=ObjOf(f"{DS}:DesignNearSquare"), geometric_constraints=ObjOf("gc", b=Real, length=Real), **_DBASE),
          name=f"{DS}:DesignNearSquare.__init__#body",
          requires=[("positive", lambda E: And(E.geometric_constraints.b > 0, E.geometric_constraints.length >= 0))],
-         ensures=[("near-square-grids-that-fit-the-length", _near_square_fields)],
+         ensures=[("near-square-grids-that-fit-the-length", _near_square_fields),
+                  ("keeps-flow-and-flow-type", lambda E: And(E.self.V_flow == E.v_flow, E.self.flow_type == E.flow_type))],
          returns=NoneT()).applies = lambda env: False
 
 
@@ -458,7 +459,8 @@ contract(f"{DS}:DesignRectangle.__init__",
          name=f"{DS}:DesignRectangle.__init__#body",
          requires=[("positive", lambda E: And(E.geometric_constraints.length > 0, E.geometric_constraints.width > 0, E.geometric_constraints.b_min > 0,
                                               E.geometric_constraints.b_min <= E.geometric_constraints.b_max_x))],
-         ensures=[("fields-on-the-land-with-spacing-at-least-b_min", _rect_design_fields)],
+         ensures=[("fields-on-the-land-with-spacing-at-least-b_min", _rect_design_fields),
+                  ("keeps-flow-and-flow-type", lambda E: And(E.self.V_flow == E.v_flow, E.self.flow_type == E.flow_type))],
          returns=NoneT()).applies = lambda env: False
 
 
